@@ -8,6 +8,6 @@ spec.loader.exec_module(c11)
 def run(tier, seed):
     return c11.run_mm("C12", tier, seed, "VfH_c12", lambda n11, n12: [
         "program dimension: %d loop templates whose iterations leave nothing reachable (slices, append, strings, struct pointers, closures, interface boxing, maps created per iteration, insert/delete of the same key, reassigned slices and strings), enumerated; the data parameter is symbolic" % n12,
-        "the compiled program is instrumented as in C11 (allocation and release counters in runtime.HeapAlloc/HeapFree); each template runs on a fresh instance with 6 iterations and with 12 iterations (a variable's previous block is released after its next one is allocated, so the heap top settles after the second iteration): the number of live blocks (allocations minus releases) and the heap top (__heap_ptr) must be equal",
-        "iteration counts other than 6 and 12, loop bodies outside the template set and cyclic data are outside",
+        "the compiled program is instrumented as in C11 (allocation and release counters in runtime.HeapAlloc/HeapFree); each template runs on a fresh instance with 6, 12 and 24 iterations (a variable's previous block is released after its next one is allocated, so the heap top settles after the second iteration): the number of live blocks (allocations minus releases) and the heap top (__heap_ptr) must not grow from each checkpoint to the next",
+        "iteration counts other than 6, 12 and 24, loop bodies outside the template set and cyclic data are outside",
     ])
